@@ -99,7 +99,7 @@ PROPS = {
                      "byte-identical output across carriers is implied only through `same Config`; equality of the library's output for equal Configs is determinism of format_code, not proved"],
         assumptions=["ec4rs Properties::get::<T>() returns the parsed value of key T (wrappers); the string parsers generated by property_choice! are macro output (assumed)"],
         technique="Kani complete enumeration of finite enum domains + Verus contracts on mechanically extracted real functions"),
-    "C07": dict(bounded=[dict(kind="lib", witnesses="C07_BOUNDED"), dict(kind="corpus", kinds=["panic", "error"])], units=["expr", "block", "ctx", "lib", "tok", "cli_io", "diff", "config", "econf", "sort", "args", "table", "stmt"], kani=["shape"],
+    "C07": dict(bounded=[dict(kind="lib", witnesses="C07_BOUNDED"), dict(kind="corpus", kinds=["panic", "error", "timeout"])], units=["expr", "block", "ctx", "lib", "tok", "cli_io", "diff", "config", "econf", "sort", "args", "table", "stmt"], kani=["shape"],
         explanation="Totality of the library call, decided per function under contract: inside every function whose real text is verified, each panic!/unreachable!/assert!/expect/unwrap, "
                     "each usize subtraction/addition/multiplication and every recursion or loop (decreases) is an obligation Verus discharges for all inputs (one `.total` obligation per function and "
                     "feature set). format_code returns Err(ParseError) iff the input does not parse and never Ok otherwise; format_ast without verification always returns Ok. "
